@@ -283,3 +283,11 @@ def run(ctx):
     g, e = getter_expr(HB, "errors")
     ctx.check(e is not None and U(e) in ("np.sqrt(self.errors2)", "np.sqrt(self._errors2)"), "C16.d", "HistogramBase.errors", "sqrt(errors2)",
               f"errors = {U(e) if e is not None else None}", g.where)
+
+    # ---- C16.e the binning objects the measures are read from belong to one histogram ------------------------------
+    # edges, widths, bin_sizes and densities are recomputed from the binning objects on every access; a derived histogram
+    # sharing such an object with its parent changes the parent's measures (while its contents stay) as soon as it grows
+    ctx.rule("C16.e", "derived histograms (copy, projection, selection) own their binning objects (shared with C12.a)", 6)
+    from rules import c12
+    for spec in [x for x in c12.OPS if x[2] in ("copy", "projection", "select", "__getitem__") and x[0] != "HistogramCollection"]:
+        c12.check_op(ctx, m, "C16.e", "C16.e", *spec)
